@@ -28,7 +28,7 @@ MANIFEST = dict(
          "constants, fixed keys, composition order and de-dup kind of both facades regenerated from the source; the hand-transcribed "
          "comprehensions by differential correspondence against the REAL GeckoAsyncFacade and GeckoFacade built on stub spas (assignment "
          "written into the block through the real accessors)."
-         ' Since session 3: rescans_are_idempotent (the facade OBJECT scanned any number of times holds the inventory of one scan; whether each list is rebuilt or grown is generated from both scan methods), checked by re-connecting the real blocking facade. A new output wiring reported on a live connection after a facade has read the outputs; the oracle decodes labels from the raw block. The first value past an output\'s label list (byte = number of labels) and the next one, on every byte-wide output, alone and beside an ordinary wiring. Round 14: the inventory of spas of different pack families connected one after the other in one process (inYJ 62/59, crafted inYT 62/62, inYJ again). Round 15: two BLOCKING clients per process, spas of different families and of ONE model set differently, sequential and with overlapping start-up; each inventory is its own spa\'s.',
+         ' Since session 3: rescans_are_idempotent (the facade OBJECT scanned any number of times holds the inventory of one scan; whether each list is rebuilt or grown is generated from both scan methods), checked by re-connecting the real blocking facade. A new output wiring reported on a live connection after a facade has read the outputs; the oracle decodes labels from the raw block. The first value past an output\'s label list (byte = number of labels) and the next one, on every byte-wide output, alone and beside an ordinary wiring. Round 14: the inventory of spas of different pack families connected one after the other in one process (inYJ 62/59, crafted inYT 62/62, inYJ again). Round 15: two BLOCKING clients per process, spas of different families and of ONE model set differently, sequential and with overlapping start-up; each inventory is its own spa\'s. Round 16: blocking_declarations_are_made_for_each_connection over the regenerated skeleton of GeckoSpa._on_config_received.',
     note="Trusted: Lean kernel; harness/gen_c12.py (AST evaluation of const.py, syntactic facts); the correspondence harness. 'Wired to an "
          "output' is the label-prefix relation the library itself uses (no other definition exists in the repository). str.upper() is modelled "
          "as ASCII upper: every upper-cased key of the shipped tables is ASCII (checked by the kernel).",
@@ -534,7 +534,7 @@ def platform_pairs(mods):
 
 def run(ctx):
     _VCOUNT.clear()
-    st = translate.run(["DeviceTable", "AccessorArith", "Packs", "Pinned"])
+    st = translate.run(["DeviceTable", "AccessorArith", "Packs", "Pinned", "Skeletons"])
     ctx.cov["translator"] = st
     for k, v in st.items():
         if v != "ok":
